@@ -64,6 +64,9 @@ def templates(n):
     T["x=f(g(y))"] = ("assign", n["x"], None, call("<func>f", call("<func>g", y)))
     T["x=1+f(g(y))"] = ("assign", n["x"], None, P.Sum((1, call("<func>f", call("<func>g", y)))))
     T["x=f(y,k=g(a))"] = ("assign", n["x"], None, call("<func>f", y, k=call("<func>g", a)))
+    # two keyword arguments, written in non-alphabetical order
+    T["x=f(z=b+1,k=a*2)"] = ("assign", n["x"], None, call("<func>f", z=P.Sum((b, 1)), k=P.Product((a, 2))))
+    T["x=f(z=g(b),k=a)stmt"] = ("call", (n["x"],), "<func>f", (), {"z": call("<func>g", b), "k": a})
     T["x=f(y+1,a*2)"] = ("assign", n["x"], None, call("<func>f", P.Sum((y, 1)), P.Product((a, 2))))
     T["x=a?b"] = ("assign", n["x"], None, P.If(gt0(c), a, b))
     T["x=f?g"] = ("assign", n["x"], None, P.If(gt0(c), call("<func>f", a), call("<func>g", b)))
